@@ -5,6 +5,9 @@ import (
 	"math/rand"
 
 	asv1 "github.com/pingcap/advanced-statefulset/client/apis/apps/v1"
+	appsv1 "k8s.io/api/apps/v1"
+	corev1 "k8s.io/api/core/v1"
+	"k8s.io/apimachinery/pkg/types"
 
 	"verif/harness/mon"
 	"verif/harness/simapi"
@@ -32,8 +35,16 @@ func calmFamily(prop string) func(ctx *Ctx) *Result {
 			}
 			r := world.NewRunner(w, ctx.caseSeed(i), cfg)
 			panicked := false
+			created := map[types.UID]bool{} // pods the controller itself created in this scenario
 			r.OnRecord = func(rec *world.Record) {
 				res.Evaluations++
+				for _, c := range rec.Calls {
+					if c.Res == simapi.Pods && c.Verb == "create" && c.OK() {
+						if p, ok := c.After.(*corev1.Pod); ok && p != nil {
+							created[p.UID] = true
+						}
+					}
+				}
 				if rec.Panic != nil {
 					panicked = true
 				}
@@ -165,6 +176,26 @@ func calmFamily(prop string) func(ctx *Ctx) *Result {
 					continue
 				}
 				res.Stats["converged"]++
+				// "each at the revision its ordinal calls for": a pod the controller built is at the revision its
+				// label names only if it also runs that revision's template
+				snap := w.Srv.Snap()
+				for _, set := range r.LiveSets() {
+					for _, p := range world.PodsOf(snap, world.NS) {
+						c := world.ControllerOf(p)
+						if c == nil || c.UID != set.UID || !created[p.UID] {
+							continue
+						}
+						for _, rev := range world.RevisionsOf(snap, world.NS) {
+							if rev.Name != p.Labels[appsv1.StatefulSetRevisionLabel] {
+								continue
+							}
+							res.Stats["converged_pods_compared_with_their_revision"]++
+							if t := world.DecodeRevisionTemplate(rev); t != nil && !mon.PodBuiltFrom(p, t) {
+								wit("converged-pod-not-at-its-revision", fmt.Sprintf("at the fixed point pod %s carries revision label %s but runs another revision's template", p.Name, rev.Name))
+							}
+						}
+					}
+				}
 				if len(cr.LateWrites) > 0 {
 					wit("write-after-convergence", fmt.Sprintf("%d writes after the converged fixed point, first: %s", len(cr.LateWrites), cr.LateWrites[0]))
 				} else {
@@ -192,8 +223,8 @@ func tail(l []string, n int) []string {
 
 func init() {
 	register(&Check{Prop: "C02", Level: "exploration",
-		Rule:   "seeded scenarios: hostile initial population + 0..80 hostile steps (faults, lag, restarts, user edits, strays), then the calm phase (user stops, faults stop, caches catch up, kubelet makes every remaining pod Running+Ready, terminating pods vanish); bounded progress: converged within 10*(pods+replicas)+30 rounds, then 5 more rounds must issue no write; non-trivial = the calm phase needed at least one round; distinct by trace tail",
+		Rule:   "seeded scenarios: hostile initial population + 0..80 hostile steps (faults, lag, restarts, user edits, strays), then the calm phase (user stops, faults stop, caches catch up, kubelet makes every remaining pod Running+Ready, terminating pods vanish); bounded progress: converged within 10*(pods+replicas)+30 rounds, then 5 more rounds must issue no write; at the fixed point every pod the controller built runs the template of the revision its label names; non-trivial = the calm phase needed at least one round; distinct by trace tail",
 		Assume: append([]string{"'eventually' is restated as bounded progress in logical rounds (no finite run decides unbounded liveness)", "premise: pods squatting a name of the set without being claimable are removed by their owners; a Failed/Succeeded pod outside the desired set of an OrderedReady set is restarted; a raised pause flag is lowered; sets being deleted are exempt"}, simAssumptions...),
 		Cases:  scenarioCases(3200, 64000), Run: calmFamily("C02"),
-		Race: runLive("C02"), RaceCases: scenarioCases(16, 160), Floors: []string{"converged", "quiet_fixed_points", "scenarios_needing_calm_work", "epilogues_failed_last_status_write", "event_driven_epilogues"}})
+		Race: runLive("C02"), RaceCases: scenarioCases(16, 160), Floors: []string{"converged", "quiet_fixed_points", "scenarios_needing_calm_work", "epilogues_failed_last_status_write", "event_driven_epilogues", "converged_pods_compared_with_their_revision"}})
 }
